@@ -61,7 +61,7 @@ class Family:
             t = line.split(" ", 3)
             cls = t[0]
             hist[cls] = hist.get(cls, 0) + 1
-            if k >= 1 and cls == "0" and not ops.get((cid, k), "").startswith("7"):
+            if k >= 1 and cls == "0" and ops.get((cid, k), "").split(" ", 1)[0] not in ("7", "8", "11", "12"):
                 prev = impl.get((cid, k - 1))
                 if prev is not None and prev.split(" ", 3)[3:] != t[3:]:
                     nontriv.add(hashlib.sha1(cases.get(cid, cid).encode()).hexdigest())
@@ -74,7 +74,7 @@ class Family:
                 if k == 0 or (cid, k) not in ops:
                     continue
                 j = k - 1
-                while j > 0 and ops.get((cid, j), "").split(" ", 1)[0] == "8":
+                while j > 0 and ops.get((cid, j), "").split(" ", 1)[0] in ("8", "11", "12"):
                     j -= 1          # a query does not change the state: skip back over it
                 pre = impl.get((cid, j))
                 if pre is None:
@@ -484,6 +484,83 @@ PROPS["C12"] = dict(
     trusted=["Coq 8.16.1 kernel", "translator tools/tr_grid.py", "extraction + OCaml driver", "Rust harness grid.rs",
              "hand-written model of parse_2d and of the vertex placement loops (GridRun.v)"],
     assumptions=["usize arithmetic does not overflow for the sizes at hand (model uses Z)"],
+)
+
+RT_CLASSES = {"1": "rebuilt map has another dart count", "2": "rebuilt images differ", "3": "rebuilt removed-dart set differs",
+              "4": "rebuilt coordinates differ", "5": "second serialization differs from the first", "6": "serialized text refused by the builder"}
+IO_TRUST = PROPS["C01"]["trusted"][:3] + [
+    "hand-written Gallina model of serialize / CMapFile::try_from / build_2d_from_cmap_file at the level of lexed items (IO/CMapText.v)",
+    "the lexical layer (trim, comments, brackets, split_whitespace, decimal and float Display/FromStr) is re-implemented by the harness lexer and exercised, not modelled"]
+PROPS["C09"] = dict(
+    level="translation_validation",
+    level_text="serialize and the text builder are modelled in Gallina at the level of lexed items and compared with the implementation "
+               "(lexed text, rebuilt map, second serialization) on histories producing open/closed cells, isolated and removed "
+               "darts, undefined vertices; the round-trip statement is an executable Coq predicate applied to every implementation "
+               "observation, byte equality of the two texts being decided on the implementation itself",
+    technique="Coq model at item level + correspondence + extracted round-trip oracle",
+    families=[
+        Family("io2-random", "core2", lambda tier, seed: ["--mode", "random", "--cases", str({"quick": 1500, "thorough": 30000}[tier]),
+                                                          "--ops", "30", "--darts", "14" if tier == "quick" else "120", "--io", "15", "--wild", "0"],
+               1, [(42, "roundtrip", RT_CLASSES)]),
+        Family("io2-big", "core2", lambda tier, seed: ["--mode", "random", "--cases", "12", "--ops", "60", "--darts", "1100", "--io", "10", "--wild", "0", "--tag", "B"],
+               1, [(42, "roundtrip", RT_CLASSES)]),
+    ],
+    trusted=IO_TRUST,
+    assumptions=["f32 maps: widening to f64 and narrowing back is the identity (not modelled)"],
+)
+
+
+def parse_family(pid, tier, seed):
+    out = os.path.join(hc.BUILD, "run", pid, "parse")
+    shutil.rmtree(out, ignore_errors=True)
+    os.makedirs(out)
+    res = dict(name="parse2", evaluations=0, cases=0, nontrivial=0, diffs=[], oracle_fail=[], oracle_ok=0, oracle_skipped=0,
+               oracle_unreadable=0, samples=[], hist={}, error=None, exhaustive=False)
+    n = {"quick": 4000, "thorough": 80000}[tier]
+    rc, log = hc.sh([hc.hbin("core2"), "--out", out, "--seed", str(seed), "--mode", "parse", "--cases", str(n), "--ops", "25", "--darts", "10"], timeout=1500)
+    if rc != 0:
+        res["error"] = "parse harness failed: " + log[-500:]
+        return [res]
+    cases = hc.read_cases(os.path.join(out, "cases.txt"))
+    impl = hc.read_obs(os.path.join(out, "impl.txt"))
+    model = hc.run_driver(40, ["%s %s" % kv for kv in cases.items()])
+    res["cases"] = len(cases)
+    res["evaluations"] = len(impl)
+    hist = {}
+    for (cid, k), line in impl.items():
+        hist[line.split()[0]] = hist.get(line.split()[0], 0) + 1
+        if model.get((cid, 0)) != line and len(res["diffs"]) < 50:
+            res["diffs"].append(dict(case=cid, step=0, case_line=cases[cid][:600], impl=line[:300], model=(model.get((cid, 0)) or "")[:300]))
+    res["hist"] = {"result_class (0 ok, 1 error, 2 panic, 4 layout refused)": hist}
+    res["nontrivial"] = len(set(cases.values()))
+    verd = hc.run_driver(41, ["%s %s -7 %s" % (cid, cases[cid], impl[(cid, 0)]) for cid in cases])
+    names = {"1": "C10:ill-formed-map-accepted", "2": "C10:builder-panics"}
+    for (cid, _), v in verd.items():
+        t = v.split()
+        if t[0] == "1":
+            res["oracle_ok"] += 1
+        elif t[0] == "2":
+            res["oracle_skipped"] += 1
+        elif t[0] == "0":
+            res["oracle_fail"].append(dict(oracle="cmap_build", cls=names.get(t[1], t[1]), case=cid, step=0,
+                                           case_line=cases[cid][:800], obs=impl[(cid, 0)][:400]))
+        else:
+            res["oracle_unreadable"] += 1
+    res["samples"] = ["%s %s" % kv for kv in list(cases.items())[:2]]
+    return [res]
+
+
+PROPS["C10"] = dict(
+    level="proof",
+    level_text="Coq theorem C10_total: for EVERY list of lexed items the Gallina transcription of the file loader and of "
+               "build_2d_from_cmap_file (every Vec index and assert an explicit panic) returns an error or a well-formed map, "
+               "never a panic. The model is compared with the implementation on mutated and random texts, and the extracted "
+               "wf2b is applied to every map the implementation returns. The lexical layer is exercised, not modelled",
+    technique="Coq proof (totality + well-formedness of the loader model) + correspondence on mutated texts + extracted oracle",
+    families=[],
+    extra=[parse_family],
+    trusted=IO_TRUST,
+    assumptions=["a META dart count large enough to exhaust memory is a resource failure outside the model"],
 )
 
 ALLOC_CLASSES = {"1": "allocation id or counts wrong", "2": "appended slot not blank", "3": "C18:stale-slot-on-reuse",
